@@ -385,3 +385,10 @@ Theorem base64_pipeline_complete : forall lit d p alpha wide atoms s,
                 handle_atom_match sp a pos d = Some (s, s + core_len p (length lit) * unit_of wide, None).
 Proof. exact pipeline_base64_complete_partial. Qed.
 Print Assumptions base64_pipeline_complete.
+
+(* the check K evaluates on the REAL recorded atom hits implies the hypothesis
+   hits_exact of the pipeline and chain theorems *)
+Theorem recorded_hits_check_gives_hits_exact : forall kernel atoms d hits,
+  hits_ok kernel atoms d hits = true -> hits_exact atoms d hits.
+Proof. exact hits_ok_exact. Qed.
+Print Assumptions recorded_hits_check_gives_hits_exact.
